@@ -42,14 +42,20 @@ def main():
         sh('git -C %s worktree remove --force %s' % (REPO, WT))
         sh('git checkout -q -- evidence', cwd=VERIF)      # the checks above rewrote evidence files from changed trees
         sh('./check --setup', cwd=VERIF)                 # ... and regenerated coq/Gen/Facts.v from them
+    # FINAL.md is always written from the recorded evaluations of all changes (a run restricted to some ids refreshes only those)
+    rows = []
+    for f in sorted(glob.glob(os.path.join(VERIF, 'seeded', '*', 'm*', 'meta.json'))):
+        m = json.load(open(f))
+        rows.append((m['property'], m['mutant'], m.get('final_own_check', 'not re-checked')))
+    rows.sort(key=lambda r: (r[0], r[1]))
     with open(os.path.join(VERIF, 'seeded', 'FINAL.md'), 'w') as fh:
         fh.write('# Seeded changes re-checked on the final tree (own check, quick tier)\n\n')
         n = len(rows)
         fh.write('%d changes: %d caught with a failing input, %d through a broken tie/correspondence, %d missed.\n\n' % (
             n, sum(r[2] == 'input' for r in rows), sum(r[2] == 'tie/corr.' for r in rows), sum(r[2] not in ('input', 'tie/corr.') for r in rows)))
-        fh.write('| change | own check | time |\n|---|---|---|\n')
-        for pid, k, kind, t in rows:
-            fh.write('| %s m%s | %s | %s |\n' % (pid, k, kind, t))
+        fh.write('| change | own check |\n|---|---|\n')
+        for pid, k, kind in rows:
+            fh.write('| %s m%s | %s |\n' % (pid, k, kind))
 
 
 if __name__ == '__main__':
